@@ -2,7 +2,9 @@
    Only pinned statements, `exact <lemma>` (or a two-line wrapper) live here.
    H : the content hash used in record-type tags, ANY function (no collision-freedom needed). *)
 From Coq Require Import List NArith Bool.
+From Coq Require Import Permutation.
 From V Require Import model.Replication proofs.Replication.
+Require V.model.Fetcher V.proofs.FetcherBridge V.proofs.FetcherBridgeRepl.
 Import ListNotations.
 Open Scope N_scope.
 
@@ -145,3 +147,27 @@ Qed.
 Theorem delivery_order_irrelevant_for_missing : forall n k1 c1 k2 c2, k1 <> k2 -> forall k,
   lookup k (held (accept (accept n k1 c1) k2 c2)) = lookup k (held (accept (accept n k2 c2) k1 c1)).
 Proof. exact accept_commute. Qed.
+
+(* Composition with C08: inside the envelope, the full transcription of ReplicationFetcher::add_keys
+   (model/Fetcher.v, any hash-map iteration order) started from an idle queue fetches exactly
+   `wanted n [] keys` -- the abstraction `on_replicate` uses -- from the advertising holder, reports no
+   event and leaves queued only what the bridge calls `lingering` (advertised entries already in
+   flight). dist is any distance function, H any content hash. *)
+Module F := V.model.Fetcher.
+Module B := V.proofs.FetcherBridgeRepl.
+Theorem on_replicate_matches_fetcher_model :
+  forall (dist : N -> N) (H : content -> N) (iter : list F.tbf_entry -> list F.tbf_entry)
+         (n : node) (s : F.state) (h : F.peer) (keys : list (key * rtype)),
+    (forall l, Permutation (iter l) l) ->
+    F.tbf s = [] -> F.range s = None -> F.farthest s = None ->
+    B.inflight_rel dist n s -> NoDup keys ->
+    (forall e, In e (F.ongoing s) -> ~ F.expired s e) ->
+    (length (inflight n) + length (wanted n [] keys) <= F.MAXn)%nat ->
+    let st := F.step_code iter s (F.AddKeys h (map (B.tkt dist) keys) (B.theld dist H n)) in
+    Permutation (F.ret (snd st)) (map (fun x => (h, B.tk dist (fst x))) (wanted n [] keys)) /\
+    Permutation (map fst (F.ongoing (fst st)))
+      (map fst (V.proofs.FetcherBridge.kept s (B.theld dist H n)) ++ map (B.tkt dist) (wanted n [] keys)) /\
+    F.events (snd st) = [] /\
+    F.tbf (fst st) = V.proofs.FetcherBridge.lingering s h (B.theld dist H n) (map (B.tkt dist) keys) /\
+    F.range (fst st) = None /\ F.farthest (fst st) = None /\ F.now (fst st) = F.now s.
+Proof. exact B.on_replicate_matches_add_keys_lemma. Qed.
